@@ -36,7 +36,7 @@ class Unsupported(Exception):
 # --------------------------------------------------------------------------- atoms
 
 class Atom:
-    __slots__ = ("kind", "args", "id", "pos", "name", "scales")
+    __slots__ = ("kind", "args", "id", "pos", "name", "scales", "guard")
     _table: dict = {}
     _all: list = []
 
@@ -58,6 +58,7 @@ def _mk_atom(kind, args, pos=False):
         a.kind, a.args, a.id, a.pos = kind, tuple(args), len(Atom._all), pos
         a.name = None
         a.scales = None
+        a.guard = False
         Atom._table[key] = a
         Atom._all.append(a)
     elif pos and not a.pos:
@@ -404,8 +405,20 @@ def log_const(c: Fraction) -> Poly:
     return r
 
 
-def mkLOG(p: Poly) -> Poly:
-    """ln(p).  Caller records the definedness condition p > 0."""
+def mkLOG(p: Poly, guarded=False) -> Poly:
+    """ln(p).  Caller records the definedness condition p > 0.  `guarded`: the logarithm is used under
+    an explicit test p > 0 (e.g. x**y with x >= 0); its axioms are then stated under that guard."""
+    before = len(Atom._all)
+    r = _mkLOG(p)
+    if guarded:
+        for i in r.atoms():
+            at = Atom._all[i]
+            if at.kind == "L" and not is_pos(at.args[0]):
+                at.guard = True
+    return r
+
+
+def _mkLOG(p: Poly) -> Poly:
     if p.is_const():
         return log_const(p.const_value())
     sm = p.single_monomial()
@@ -418,7 +431,7 @@ def mkLOG(p: Poly) -> Poly:
                 if at.kind == "E":
                     r = p_add(r, p_scale(at.args[0], e))
                 elif at.kind == "inv":
-                    r = p_sub(r, p_scale(mkLOG(at.args[0]), e))
+                    r = p_sub(r, p_scale(_mkLOG(at.args[0]), e))
                 else:
                     la = _mk_atom("L", (Poly.atom(at),))
                     r = p_add(r, p_scale(Poly.atom(la), e))
@@ -427,7 +440,7 @@ def mkLOG(p: Poly) -> Poly:
         return Poly.atom(la)
     mc, rest = _split_content(p, need_pos=True)
     if mc is not None:
-        return p_add(mkLOG(mc), mkLOG(rest))
+        return p_add(_mkLOG(mc), _mkLOG(rest))
     m0 = min(p.terms)
     if p.terms[m0] > 0:
         c, pn = _lead_normalise(p)
@@ -487,9 +500,9 @@ def mkE(a: Poly) -> Poly:
     return r
 
 
-def mkPOWF(base: Poly, expo: Poly) -> Poly:
+def mkPOWF(base: Poly, expo: Poly, guarded=False) -> Poly:
     """base ** expo for a non-integer or symbolic exponent: E(expo * ln base)."""
-    return mkE(p_mul(expo, mkLOG(base)))
+    return mkE(p_mul(expo, mkLOG(base, guarded)))
 
 
 def mkUF(name: str, args, pos=False) -> Poly:
